@@ -44,7 +44,8 @@ impl RunCtx {
         };
         // VERIF_CASE_SCALE (e.g. 0.2) shrinks the number of random cases; used for the second, unoptimised pass of C16
         match std::env::var("VERIF_CASE_SCALE").ok().and_then(|s| s.parse::<f64>().ok()) {
-            Some(f) if f > 0.0 => ((n as f64 * f).ceil() as usize).max(1),
+            // (a sub-check without random cases keeps none: its strategy only knows its fixed items)
+            Some(f) if f > 0.0 && n > 0 => ((n as f64 * f).ceil() as usize).max(1),
             _ => n,
         }
     }
